@@ -3,7 +3,12 @@
 spec/Trim.tla (Engine + Trim(I, O) written like the code) is explored
 exhaustively by TLC for every listed (inputs, outputs) choice, before and
 after arbitrary evaluate/set_value histories (invariant TrimEquiv: every
-output evaluation returns Fresh of the untrimmed sheet).  Every transition is
+output evaluation returns Fresh of the untrimmed sheet).  The trim is an action
+of every state before it: right after the load, after evaluations of any nodes
+and after assignments -- the outputs and their precedents need not have been
+evaluated (the trim itself builds them).  An input is a cell (leaf or buried)
+or a range, read as a range by some formula or by none (then it is no node of
+the graph).  Every transition is
 executed on the real ExcelCompiler; after the trim the same continuation is
 also executed on a save/load twin (yml / json / pkl) of the trimmed model.
 VERDICT: each output value of the trimmed model and of its reloaded twin
@@ -19,6 +24,16 @@ from harness import engine, parallel, tlc, workbooks as W, xl
 from harness.evidence import Verdict
 
 PID = 'C08'
+
+WORKBOOKS = dict(W.WORKBOOKS)
+# a range which no formula reads as a range (its cells are read one by one):
+# given as an input of trim_graph it is not in the cell map, unless somebody
+# evaluated it before
+WORKBOOKS['trimobs'] = dict(
+    inputs={'A1': 1, 'B1': 2, 'A2': 5},
+    formulas={'C1': ('Plus', ['A1'], 1), 'D1': ('Plus', ['C1', 'B1'], 0),
+              'C2': ('Plus', ['A2'], 1), 'D2': ('Plus', ['D1', 'C2'], 0)},
+    ranges={'A1:B1': [['A1', 'B1']]})
 
 
 class TrimModel(engine.RealModel):
@@ -46,11 +61,10 @@ class TrimModel(engine.RealModel):
         from pycel import ExcelCompiler
         try:
             if act['op'] == 'trim':
-                # "frozen to the value they had at trim time": the outputs are
-                # evaluated first.  The model only trims when they are cached, so
-                # this is a no-op unless the code caches less than the model thinks
+                # nothing is evaluated on behalf of the trim: the model is
+                # trimmed in the state the history left it in (the untrimmed twin,
+                # the oracle, builds the outputs too: it takes the same assignments)
                 for o in sorted(act['o']):
-                    self.m.evaluate(W.addr(o))
                     self.twin.evaluate(W.addr(o))
                 self.m.trim_graph([W.addr(i) for i in sorted(act['i'], reverse=self.desc)],
                                   [W.addr(o) for o in sorted(act['o'])])
@@ -68,9 +82,15 @@ class TrimModel(engine.RealModel):
                 return 'ok', got
             if act['op'] == 'set_value':
                 val = W.py_val(act['v'])
-                for m in (self.m, self.twin, self.reloaded):
+                failed = None
+                for m in (self.twin, self.m, self.reloaded):
                     if m is not None:
-                        self.set_on(m, act['n'], val, variant)
+                        try:          # every model gets the assignment, whatever the others do
+                            self.set_on(m, act['n'], val, variant)
+                        except Exception as exc:          # noqa
+                            failed = failed or exc
+                if failed is not None:
+                    raise failed
                 return 'ok', None
         except Exception as exc:          # noqa
             return 'exc', f'{type(exc).__name__}: {exc}'
@@ -78,10 +98,11 @@ class TrimModel(engine.RealModel):
 
     def set_on(self, m, node, val, variant):
         if variant == 'range':
-            # assign through an input range containing the cell
+            # assign through an input range containing the cell (the range
+            # itself need not be in the cell map)
             for r, rows in self.wb.get('ranges', {}).items():
                 flat = [c for row in rows for c in row]
-                if node in flat and W.addr(r) in m.cell_map and all(
+                if node in flat and all(
                         c in self.wb['inputs'] and W.addr(c) in m.cell_map for c in flat):
                     cur = [[val if c == node else m.cell_map[W.addr(c)].value
                             for c in row] for row in rows]
@@ -118,6 +139,13 @@ def trim_choices(wb, rnd, limit):
     must += [c for c in allc if len(c[0]) == 1 and c[1] == last and (
         wb['inputs'].get(c[0][0], 0) is None or
         any(c[0][0] in row for r in wb.get('cse', {}) for row in W.cse_members(r)))][:2]
+    # a range which no formula reads as a range: not a node unless it was evaluated
+    read = {d[1] for d in wb['formulas'].values() if d[0] in ('SumR', 'Idx')} | \
+        {s for s, _ in wb.get('cse', {}).values()} | set(wb.get('aliases', {}).values())
+    unread = [r for r in plain if r not in read]
+    must += [c for c in allc if len(c[0]) == 1 and c[0][0] in unread][:3]
+    must += [c for c in allc if len(c[0]) == 2 and set(c[0]) & set(unread)][:2]
+    must = [c for k, c in enumerate(must) if c not in must[:k]]
     return must + [c for c in allc if c not in must][:max(0, limit - len(must))], len(allc)
 
 
@@ -125,7 +153,7 @@ def job(arg):
     name, src, ft, nchoices, seed = arg
     desc = bool(seed % 2)
     rnd = random.Random(seed)
-    wb = W.WORKBOOKS[name]
+    wb = WORKBOOKS[name]
     choices, total = trim_choices(wb, rnd, nchoices)
     oracle = engine.Oracle(wb)
     g = engine.gen_trim_graph(name, wb, [2], src, choices,
@@ -169,7 +197,7 @@ def job(arg):
                         f'[{name}/{src}/{ft}]', case))
             if not xl.same_value(model.others['untrimmed'], fresh) and len(out['notes']) < 2:
                 out['notes'].append(f'untrimmed twin differs from a from-scratch compile '
-                                    f'({model.others["untrimmed"]!r} vs {fresh!r}) after {hist[-3:]}')
+                                    f'({model.others["untrimmed"]!r} vs {fresh!r}) after {hist[-8:]}')
         if not drift:
             diffs = state_matches_t(g.states[t], model.project())
             if diffs:
